@@ -2340,6 +2340,18 @@ void CDNS::CdnsBlockRead::read(CdnsDecoder& dec, std::vector<BlockParameters>& b
         throw CdnsDecoderException("Given Block parameters array is empty!");
 
     clear();
+
+    // The read positions of read_generic_*() refer to the contents cleared above: reset them however this
+    // method is left, so a read that fails part-way doesn't leave them pointing into freed items
+    struct ReadPositionReset {
+        CdnsBlockRead& block;
+        ~ReadPositionReset() {
+            block.m_qr_read = 0;
+            block.m_aec_read = block.m_address_event_counts.begin();
+            block.m_mm_read = 0;
+        }
+    } read_position_reset{*this};
+
     bool is_m_block_preamble = false;
     bool indef = false;
     uint64_t length = dec.read_map_start(indef);
@@ -2418,10 +2430,6 @@ void CDNS::CdnsBlockRead::read(CdnsDecoder& dec, std::vector<BlockParameters>& b
             mm.time_offset->add_time_offset(offset, m_block_parameters.storage_parameters.ticks_per_second);
         }
     }
-
-    m_qr_read = 0;
-    m_aec_read = m_address_event_counts.begin();
-    m_mm_read = 0;
 }
 
 CDNS::GenericQueryResponse CDNS::CdnsBlockRead::read_generic_qr(bool& end)
